@@ -51,6 +51,14 @@ func (e *emitter) emit(sk, a ring.Poly, out *rlwe.Ciphertext, ntt bool) {
 	}
 }
 
+// MONTERR control: adapts to the NTT flag only
+func (e *emitter) fill(ct *rlwe.Ciphertext) {
+	e.xe.Read(ct.Value[0])
+	if ct.IsNTT {
+		e.r.NTT(ct.Value[0], ct.Value[0])
+	}
+}
+
 // ERRREUSE control: one draw masks both components
 func (e *emitter) twice(buf ring.Poly, out *rlwe.Ciphertext) {
 	e.xe.Read(buf)
